@@ -37,12 +37,12 @@ CLAIMS.update({
         note=_NOTE),
     "C11": dict(
         text="All nine transaction lookups are shown to match on invoke ID AND peer address (truth-table evaluation of the match condition), each inbound PDU type searches the right list by direction flag and is handed to the found transaction, "
-             "misses are ignored, allocation is modulo 256 over IDs not live toward that peer, registration precedes execution, and duplicate requests are not re-delivered. Wrap-around over histories is not claimed.",
+             "misses are ignored, allocation is modulo 256 over IDs not live toward that peer, registration precedes execution, and duplicate requests are not re-delivered; the per-peer request queues of the application serialise requests and are forgotten only when idle (shared with C04.R6). Wrap-around over histories is not claimed.",
         technique="guard truth-table evaluation + path enumeration per PDU type",
         note=_NOTE),
     "C12": dict(
         text="Capability decision tables of ClientSSM.indication / ServerSSM.confirmation / idle / await_confirmation are enumerated over all combinations of own and peer segmentation support, max-segments and segment counts and compared with the standard's outcome (send or the matching abort); "
-             "segment size is bounded by every limit it is derived from; peer limits are taken from the request header and I-Am; window negotiation is min(proposed, own). Header allowance and window range checks are known findings. Frame lengths for concrete payloads are not claimed.",
+             "segment size is bounded by every limit it is derived from; peer limits are taken from the request header and I-Am, a record learned from an I-Am is stored under both cache keys and the state machines acquire it with a key of the kind acquire() accepts; window negotiation is min(proposed, own). Header allowance and window range checks are known findings. Frame lengths for concrete payloads are not claimed.",
         technique="finite-domain guard evaluation over path enumeration (decision-table extraction) + dataflow of limit sources",
         note=_NOTE),
     "C14": dict(
@@ -88,21 +88,21 @@ CLAIMS.update({
     "C06": dict(
         text="Structural necessary conditions of the routing property on NetworkServiceAccessPoint.process_npdu / indication and the service element: every forwarding send is dominated by the hop-count test and the decrement and uses a copy; "
              "no send toward the arrival adapter is reachable (identity guards evaluated); SADR preserved or built from (arrival net, link source); last-hop rewriting; the process/forward decision table extracted per destination kind equals clause 6.5; "
-             "outbound addressing is exhaustive, unknown routes park + Who-Is-Router, I-Am-Router releases parked packets. Exactly-once delivery over topologies is not claimed.",
+             "outbound addressing is exhaustive, unknown routes park + Who-Is-Router, I-Am-Router releases parked packets; Who-Is-Router is never answered for a network reached through the asking network; the routing cache the forwarder consults stays coherent (shared with C19.R2/R3). Exactly-once delivery over topologies is not claimed.",
         technique="guard dominance + decision-table extraction by finite-domain guard evaluation + path enumeration",
         note=_NOTE),
     "C13": dict(
         text="The BBMD's forwarding matrix is extracted per inbound function (who gets the packet under which guard, with which originator) and compared with Annex J.4.5; foreign and simple node rules; all four node types test all twelve functions; "
-             "foreign-device table ageing (TTL + grace on every registration path, one-second tick, removal at zero, descending scan) and the foreign node's renewal / tracking / unregister timers. Exactly-once and instants of expiry over layouts are not claimed.",
+             "foreign-device table ageing (TTL + grace on every registration path, one-second tick, removal at zero, descending scan) and the foreign node's renewal / tracking (re-armed by every acknowledgement) / unregister timers and the typestate of its registration status (register() leaves every result-ignoring state); each forwarding is reachable for every way the message can arrive. Exactly-once and instants of expiry over layouts are not claimed.",
         technique="forwarding-matrix extraction from guards and loop structure + exhaustiveness + path rules",
         note=_NOTE),
     "C15": dict(
         text="Validate-before-mutate on every path of Property.WriteProperty, the writable name/identifier properties and the commandable mix-in; the refusal table (error class/code per failure) in the property classes, both service handlers and the RPM element builder; "
-             "array index value-sets (0 = length, 1..n, IndexError otherwise); sibling normal form of the ReadProperty and ReadPropertyMultiple value conversions and selector polarity; error literals; drift of all 1650 (object type, property) datatypes and conformance codes.",
+             "array index value-sets (0 = length, 1..n, IndexError otherwise); sibling normal form of the ReadProperty and ReadPropertyMultiple value conversions and selector polarity; the request's identifier / index / priority reach obj.ReadProperty / obj.WriteProperty; per-specification results are built fresh in every loop pass (definite-assignment and stale-accumulator dataflow); error literals; drift of all 1650 (object type, property) datatypes and conformance codes.",
         technique="path rules (validate-before-mutate) + guard value-sets + sibling normal form + frozen property reference",
         note=_NOTE),
     "C16": dict(
-        text="Both subscribe handlers acknowledge exactly once and defer exactly one initial notification on every non-cancel path; one record per (address, process, object) by truth table of the match; renewal re-times and records the request-derived fields the reporters read (dataflow); "
+        text="Both subscribe handlers acknowledge exactly once and defer exactly one initial notification on every non-cancel path; one record per (address, process, object) by truth table of the match; renewal re-times and records the request-derived fields the reporters read (dataflow) and both renewal call sites pass them; "
              "expiry/cancel cleanup; one deferred execution per change burst; inclusive increment threshold (expression table); every COV-capable object type has a criteria class whose properties it declares. Notification counts over timelines are not claimed.",
         technique="path enumeration + guard truth tables + field dataflow + table agreement",
         note=_NOTE),
@@ -112,17 +112,17 @@ CLAIMS.update({
         technique="guard value-sets + path rules + MRO analysis",
         note=_NOTE),
     "C18": dict(
-        text="Every store of a network number and every one-octet station pack in pdu.py is shown dominated by its range test (value sets of the guards, with regex-derived sources known non-negative); fields hashed vs fields compared unconditionally; "
+        text="Every store of a network number and every one-octet station pack in pdu.py is shown dominated by its range test (value sets of the guards, with regex-derived sources known non-negative); fields hashed vs fields compared unconditionally, and the hashed octets are an immutable bytes object owned by the address (never the caller's buffer); "
              "all typed constructors set all five fields; the printer is exhaustive over the six address types; mask/host/subnet/broadcast expressions are evaluated against IPv4 arithmetic for all 33 mask lengths. Print/parse round trips are not claimed.",
         technique="guard value-sets at every sink + field-set comparison + finite-domain expression evaluation",
         note=_NOTE),
     "C19": dict(
-        text="Scope resolution of every function of the package (no unbound global reads); the router map and path index are updated together on every loop path of the mutators and a router record disappears only when empty; displacement precedes adoption; renumbering re-keys both indexes; the two learning sites pass (arrival network, link source, networks). Coherence after arbitrary histories is not claimed.",
+        text="Scope resolution of every function of the package (no unbound global reads); the router map and path index are updated together on every loop path of the mutators and a router record disappears only when empty; every path-index key uses the network the router map is indexed by in that call and a path is dropped only for a destination the edited router owns; displacement precedes adoption; renumbering re-keys both indexes; the two learning sites pass (arrival network, link source, networks). Coherence after arbitrary histories is not claimed.",
         technique="symtable scope resolution + paired-update path rules",
         note=_NOTE),
     "C20": dict(
         text="Return shapes of eval() vs how callers unpack them; every date matcher tests a pattern field for the unspecified octet before a lower-bound comparison (sibling rule); the special-octet tables of match_date / match_weeknday are extracted by evaluating the branch guards for every month, day and week-of-month value against clause 21; "
-             "evaluation order, inclusive time comparison, Null handling, winner selection, weekday index; the timer is re-armed at the computed transition on every evaluating path. The value at every instant against an independent interpreter is not claimed.",
+             "evaluation order, inclusive time comparison, Null handling, winner selection, weekday index; the timer is re-armed at the computed transition on every evaluating path; match_date_range is evaluated on a start/end/date grid; every local of the evaluator and matchers is assigned before it is read within the current loop iteration (definite-assignment dataflow). The value at every instant against an independent interpreter is not claimed.",
         technique="return-shape analysis + sibling guard rule + decision-table extraction by finite-domain guard evaluation + path rules",
         note=_NOTE),
 })
